@@ -330,7 +330,44 @@ class Gen:
             c = r.choice(self.live)
             if self.accept_faults and r.random() < 0.04:
                 self.steps.append(("raw", "ACCEPTFAIL %s %d" % (r.choice(["jet", "http", "uds"]), r.choice([103, 4, 24, 23, 105, 12, 71, 1]))))
-            if x < self.malformed:
+            if x < self.malformed * 0.5:
+                # a valid request in a spelling only a lenient reader accepts (or just refuses): the daemon's parser decides
+                from . import daemon as _D
+                req = self.request(c)
+                base = _D.jtext(req)
+                k = r.randrange(12)
+                if k == 0:
+                    text = base + r.choice([b" trailing", b"}", b"\x00\x00", b"{", b" [1]", b",", b"\n\n"])
+                elif k == 1:
+                    text = b"\xef\xbb\xbf" + base
+                elif k == 2:
+                    text = r.choice([b" ", b"\t\r\n ", b"\n"]) + base.replace(b",", b" ,\t", 1).replace(b":", b" : ", 2)
+                elif k == 3:
+                    text = base.replace(b'"method"', b'"m\\u0065thod"', 1).replace(b'"path"', b'"p\\u0061th"', 1)
+                elif k == 4:
+                    text = base.replace(b'"info"', b'"inf\\u006f"').replace(b'"add"', b'"\\u0061dd"').replace(b'"set"', b'"s\\u0065t"')
+                elif k == 5:
+                    text = base.replace(b'"id":1', b'"id":01', 1).replace(b'"id":2', b'"id":2e0', 1).replace(b'"id":3', b'"id":3.0', 1).replace(b'"value":1', b'"value":1E+0', 1)
+                elif k == 6:
+                    text = base.replace(b'"path":"a', b'"path":"a\\u0000zz', 1).replace(b'"path":"m', b'"path":"m\\u0000', 1)
+                elif k == 7:
+                    text = base.replace(b'"path":"', b'"path":"\x01\x7f', 1)
+                elif k == 8:
+                    text = base.replace(b'"path":"', b'"path":"\xff\xc3', 1)
+                elif k == 9:
+                    text = base[:-1] + b",}" if base.endswith(b"}") else base[:-1] + b",]"
+                elif k == 10:
+                    text = base.replace(b'"path":"', b'"path":"\\ud800', 1).replace(b'"user":"', b'"user":"\\udc00\\ud800', 1)
+                else:
+                    text = b"[" + base + b"," + base + b"]extra"
+                if len(text) < 500:
+                    self.steps.append(("msg", c, text))
+                    if _D.cjson_tokens(text) is None:
+                        self.live.remove(c)
+                        for p_ in [p_ for p_, o in self.owned.items() if o == c]:
+                            del self.owned[p_]
+                            self.kind.pop(p_, None)
+            elif x < self.malformed:
                 self.steps.append(("msg", c, r.choice([b"{garbage", b"[1,2", b"", b"nul", b"\"str\"", b"17", b"{\"method\":\"info\",\"id\":5", b"[1]", b"[{\"method\":\"info\",\"id\":1},5]", b"\xff\xfe{}"])))
                 if self.steps[-1][2] != b"":
                     self.live.remove(c)
